@@ -87,9 +87,28 @@ def metric_of(sr, ndim, scale):
     return [1] * ndim, int(R * R)
 
 
+SPELL = None     # how an integral search_range is handed to trackpy: None/'float', 'int', 'list', 'array', 'arrayf'
+SPELLINGS = [None, None, 'int', 'int', 'list', 'array', 'arrayf']
+
+
 def sr_float(sr):
+    """the search_range object given to trackpy.  Integral ranges are also spelled as Python ints, a list or an
+    integer / float ndarray (module variable SPELL, set per case by the harness and recorded in the replay):
+    callers write search_range=5 or (2, 5) as often as 5.0"""
+    vals = sr if isinstance(sr, tuple) else (sr,)
+    sp = SPELL if all(Fraction(r).denominator == 1 for r in vals) else None
     if isinstance(sr, tuple):
+        if sp == 'int':
+            return tuple(int(r) for r in sr)
+        if sp == 'list':
+            return [int(r) for r in sr]
+        if sp == 'array':
+            return np.array([int(r) for r in sr])
+        if sp == 'arrayf':
+            return np.array([float(r) for r in sr])
         return tuple(float(r) for r in sr)
+    if sp in ('int', 'list', 'array'):
+        return int(sr)
     return float(sr)
 
 
@@ -140,6 +159,11 @@ def max_inrange(frames, sr, memory):
     return worst
 
 
+# a linking call on one of the small generated movies takes milliseconds (subnets are capped at LIMIT sources); a call that
+# has not returned after WATCHDOG seconds has effectively produced no result: reported with the movie as the failing input
+WATCHDOG = 120
+
+
 class ImplError(Exception):
     """trackpy raised something other than SubnetOversizeException on a valid input."""
     def __init__(self, exc, call):
@@ -184,6 +208,12 @@ def run_link_iter(frames, sr, memory=0, link_strategy=None, max_size=None, adapt
         Linker.MAX_SUB_NET_SIZE = max_size
         Linker.MAX_SUB_NET_SIZE_ADAPTIVE = max_size
     out = []
+    import signal
+
+    def _late(signum, frame):
+        raise TimeoutError('no result within %d s' % WATCHDOG)
+    old_handler = signal.signal(signal.SIGALRM, _late)
+    signal.alarm(WATCHDOG)
     try:
         if enumerate_t is not None:
             it = zip(enumerate_t, [f.copy() for f in frames])
@@ -216,6 +246,8 @@ def run_link_iter(frames, sr, memory=0, link_strategy=None, max_size=None, adapt
                                         enumerate_t=list(enumerate_t) if enumerate_t is not None else None,
                                         labels_before_the_failure=out))
     finally:
+        signal.alarm(0)
+        signal.signal(signal.SIGALRM, old_handler)
         Linker.MAX_SUB_NET_SIZE, Linker.MAX_SUB_NET_SIZE_ADAPTIVE = old
     return out
 
